@@ -72,6 +72,7 @@ type caseJSON struct {
 	// mptrunc: multipart parts in order (file when filename != ""), the body is cut after Cut bytes
 	Parts   [][3]string `json:"parts,omitempty"`
 	Cut     int         `json:"cut,omitempty"`
+	Boundary string     `json:"boundary,omitempty"` // mpmodel: the boundary (ASCII token)
 	Partial bool        `json:"partial,omitempty"` // deliver the whole body under a ProcessPartial limit = Cut
 	Orig    [][2]string `json:"orig,omitempty"`  // the list the carrier was encoded from (round-trip oracle)
 	Via     string      `json:"via,omitempty"`   // query | cookie | headers | urlencoded | json | jsontree
@@ -1012,6 +1013,8 @@ func (rn *runner) runCase(c *caseJSON) error {
 		return rn.runMultipart(c)
 	case "xml":
 		return rn.runXML(c)
+	case "mpmodel":
+		return rn.runMPModel(c)
 	case "chunked":
 		return rn.runChunked(c)
 	case "mptrunc":
